@@ -18,40 +18,73 @@ Definition sokind_eqb (a b : sokind) : bool :=
   end.
 
 (* ---- the keyword arguments that travel down get_sql calls ----
-   A Python dict: a key may be absent (outer None) or present with any value, including None.
-   dialect and quote_char are the two keys _SetOperation.get_sql defaults from the base query;
-   alias_quote_char / as_keyword are read by format_alias_sql; every other key (secondary_quote_char,
-   with_namespace, groupby_alias, ...) is only passed through: one opaque tag. *)
-Record kwargs := {
-  kw_dialect : option (option string);     (* absent | present (None | Dialects member name) *)
-  kw_quote : option (option string);       (* absent | present (None | quote char) *)
-  kw_alias_quote : option string;          (* alias_quote_char, absent = None (the parameter default) *)
-  kw_as_keyword : bool;                    (* as_keyword, absent = False *)
-  kw_other : string                        (* canonical text of all remaining items *)
-}.
-Definition no_kwargs : kwargs :=
-  {| kw_dialect := None; kw_quote := None; kw_alias_quote := None; kw_as_keyword := false; kw_other := "" |}.
+   A Python dict: a finite map from key to value; a key may be absent, or present with any value, including None.
+   Keys read by this model: quote_char, alias_quote_char, query_alias_quote_char, as_keyword; every other key
+   (dialect, secondary_quote_char, groupby_alias, with_namespace, ...) is only defaulted and passed on. *)
+Inductive kval := VNone | VStr (s : string) | VBool (b : bool).
+Definition kval_eqb (a b : kval) : bool :=
+  match a, b with
+  | VNone, VNone => true
+  | VStr x, VStr y => String.eqb x y
+  | VBool x, VBool y => Bool.eqb x y
+  | _, _ => false
+  end.
+Definition kwargs := list (string * kval).
+Definition no_kwargs : kwargs := [].
 
-Definition oostr_eqb (a b : option (option string)) : bool := option_eqb (option_eqb String.eqb) a b.
-Definition kwargs_eqb (a b : kwargs) : bool :=
-  oostr_eqb (kw_dialect a) (kw_dialect b) && oostr_eqb (kw_quote a) (kw_quote b)
-  && option_eqb String.eqb (kw_alias_quote a) (kw_alias_quote b)
-  && Bool.eqb (kw_as_keyword a) (kw_as_keyword b) && String.eqb (kw_other a) (kw_other b).
+Fixpoint kw_get (k : kwargs) (key : string) : option kval :=
+  match k with
+  | [] => None
+  | (k', v) :: r => if String.eqb k' key then Some v else kw_get r key
+  end.
+Definition kw_has (k : kwargs) (key : string) : bool := is_some (kw_get k key).
+(* dict.setdefault(key, v) *)
+Definition kw_setdefault (k : kwargs) (kv : string * kval) : kwargs :=
+  if kw_has k (fst kv) then k else (k ++ [kv])%list.
+(* dict[key] = v *)
+Fixpoint kw_set (k : kwargs) (kv : string * kval) : kwargs :=
+  match k with
+  | [] => [kv]
+  | (k', v') :: r => if String.eqb k' (fst kv) then kv :: r else (k', v') :: kw_set r kv
+  end.
+(* a value used as Optional[str] / under Python truthiness *)
+Definition kw_str (k : kwargs) (key : string) : option string :=
+  match kw_get k key with Some (VStr x) => Some x | _ => None end.
+Definition kw_true (k : kwargs) (key : string) : bool :=
+  match kw_get k key with
+  | Some (VBool b) => b
+  | Some (VStr x) => negb (String.eqb x "")
+  | _ => false
+  end.
+(* equality of dicts (no duplicate keys): same items both ways *)
+Definition kw_sub (a b : kwargs) : bool :=
+  forallb (fun kv => match kw_get b (fst kv) with Some v => kval_eqb v (snd kv) | None => false end) a.
+Definition kwargs_eqb (a b : kwargs) : bool := kw_sub a b && kw_sub b a.
+
+(* how a query class writes LIMIT/OFFSET (QueryBuilder._apply_pagination and its two overrides) *)
+Inductive pstyle := PStd | POracle | PMssql.
 
 (* ---- operands: opaque queries ----
    o_sel      the aliases of the selected terms (len(q._selects) = its length; the aliases matter only for the
               base query, whose selected aliases drive ORDER BY substitution);
    o_builder  the object HAS a _selects list: a QueryBuilder, or a _SetOperation (whose _selects property answers with
-              its base query's list, so a chain can be an operand of a chain).  A Table or AliasedQuery is a Selectable
-              whose __getattr__ answers q._selects with Field('_selects'): len() raises TypeError;
-   o_wrap/o_dialect/o_quote   the attributes wrap_set_operation_queries / dialect / QUOTE_CHAR of the object;
+              its base query's list).  A Table or AliasedQuery is a Selectable whose __getattr__ answers q._selects
+              with Field('_selects'): len() raises TypeError;
+   o_chain    isinstance(q, _SetOperation);
+   o_wrap     the attribute wrap_set_operation_queries;
+   o_defaults / o_forced   what q._set_kwargs_defaults(kwargs) does: setdefault of these items (quote_char,
+              secondary_quote_char, alias_quote_char, query_alias_quote_char, as_keyword, dialect), then plain
+              assignment of those (Oracle, MSSQL: groupby_alias=False);
+   o_page     the pagination style of q.QUERY_CLS._builder();
    o_text k sub   q.get_sql(subquery=sub, **k)  — the operand's own rendering, not interpreted here. *)
 Record operand := {
   o_sel : list (option string);
   o_builder : bool;
+  o_chain : bool;
   o_wrap : bool;
-  o_dialect : option string;
-  o_quote : option string;
+  o_defaults : kwargs;
+  o_forced : kwargs;
+  o_page : pstyle;
   o_text : kwargs -> bool -> string
 }.
 Definition arity (o : operand) : nat := List.length (o_sel o).
@@ -164,20 +197,25 @@ Definition to_res (r : rres) : res string :=
   | RTypeError => Err "TypeError"
   end.
 
-(* kwargs.setdefault("dialect", base.dialect); kwargs.setdefault("quote_char", base.QUOTE_CHAR) *)
-Definition setdefaults (base : operand) (k : kwargs) : kwargs :=
-  {| kw_dialect := match kw_dialect k with Some d => Some d | None => Some (o_dialect base) end;
-     kw_quote := match kw_quote k with Some q => Some q | None => Some (o_quote base) end;
-     kw_alias_quote := kw_alias_quote k; kw_as_keyword := kw_as_keyword k; kw_other := kw_other k |}.
+(* base_query._set_kwargs_defaults(kwargs): every missing convention comes from the base query; what the caller
+   (an enclosing query, an explicit keyword) set is kept; forced items are overwritten *)
+Definition apply_defaults (base : operand) (k : kwargs) : kwargs :=
+  fold_left kw_set (o_forced base) (fold_left kw_setdefault (o_defaults base) k).
 
-(* the for loop.  Each iteration: render the operand with subquery=base.wrap_set_operation_queries, THEN compare
-   len(base._selects) with len(operand._selects), then extend the text. *)
+(* an operand as it enters the chain text: rendered with subquery=base.wrap_set_operation_queries; a nested chain
+   below a base that does not parenthesise becomes a derived table *)
+Definition operand_sql (base : operand) (k : kwargs) (q : operand) : string :=
+  let qs := o_text q k (o_wrap base) in
+  if o_chain q && negb (o_wrap base) then "SELECT * FROM (" ++ qs ++ ")" else qs.
+
+(* the for loop.  Each iteration: render the operand, THEN compare len(base._selects) with len(operand._selects),
+   then extend the text. *)
 Fixpoint so_loop (base : operand) (k : kwargs) (base_qs : string) (ops : list (sokind * operand))
          (querystring : string) : rres :=
   match ops with
   | [] => ROk querystring
   | (ty, q) :: rest =>
-      let qs := o_text q k (o_wrap base) in
+      let qs := operand_sql base k q in
       if negb (o_builder base && o_builder q) then RTypeError
       else if negb (Nat.eqb (List.length (o_sel base)) (List.length (o_sel q))) then RSetOpExc base_qs qs
       else so_loop base k base_qs rest (querystring ++ " " ++ kind_text ty ++ " " ++ qs)
@@ -190,7 +228,7 @@ Definition ob_clause (base : operand) (k : kwargs) (it : obitem) : string :=
   let term :=
       match ob_alias it with
       | Some a => if negb (String.eqb a "") && in_aliases a (o_sel base)
-                  then fq (match kw_quote k with Some q => q | None => None end) a
+                  then fq (or_ostr (kw_str k "alias_quote_char") (kw_str k "quote_char")) a
                   else ob_text it k
       | None => ob_text it k
       end in
@@ -200,46 +238,63 @@ Definition orderby_sql (base : operand) (k : kwargs) (obs : list obitem) : strin
 
 Definition is_nil {A} (l : list A) : bool := match l with [] => true | _ => false end.
 
+(* _apply_pagination of a fresh builder of the base class carrying the chain's limit and offset *)
+Definition off_true (o : option Z) : bool := match o with Some n => negb (Z.eqb n 0) | None => false end.
+Definition page_sql (st : pstyle) (lim off : option Z) : string :=
+  match st with
+  | PStd =>
+      (match lim with Some n => " LIMIT " ++ Z_to_string n | None => "" end)
+      ++ (if off_true off then " OFFSET " ++ Z_to_string (odefault 0%Z off) else "")
+  | POracle =>
+      (if off_true off then " OFFSET " ++ Z_to_string (odefault 0%Z off) ++ " ROWS" else "")
+      ++ (match lim with Some n => " FETCH NEXT " ++ Z_to_string n ++ " ROWS ONLY" | None => "" end)
+  | PMssql =>
+      (if is_some lim || off_true off
+       then " OFFSET " ++ Z_to_string (if off_true off then odefault 0%Z off else 0%Z) ++ " ROWS" else "")
+      ++ (match lim with Some n => " FETCH NEXT " ++ Z_to_string n ++ " ROWS ONLY" | None => "" end)
+  end.
+
 (* the text of Field('_table_name', table=chain) formatted by format_quotes: what  self.alias or self._table_name
    evaluates to when the chain has no alias (Selectable.__getattr__ manufactures a Field) *)
 Definition table_name_field_text : string := """_table_name""".
 
+(* the alias quote of a chain used as a source: query_alias_quote_char when the key is present, else alias_quote_char *)
+Definition source_alias_quote (k : kwargs) : option string :=
+  if kw_has k "query_alias_quote_char" then kw_str k "query_alias_quote_char" else kw_str k "alias_quote_char".
+
 Definition render_setop (s : setop) (k0 : kwargs) (with_alias subquery : bool) : rres :=
   let base := s_base s in
-  let k := setdefaults base k0 in
+  let k := apply_defaults base k0 in
   let base_qs := o_text base k (o_wrap base) in
   match so_loop base k base_qs (s_ops s) base_qs with
   | ROk q =>
       let q := if is_nil (s_orderbys s) then q else q ++ orderby_sql base k (s_orderbys s) in
-      let q := match s_limit s with Some n => q ++ " LIMIT " ++ Z_to_string n | None => q end in
-      let q := match s_offset s with
-               | Some n => if Z.eqb n 0 then q else q ++ " OFFSET " ++ Z_to_string n
-               | None => q
-               end in
+      let q := q ++ page_sql (o_page base) (s_limit s) (s_offset s) in
       let q := if subquery then "(" ++ q ++ ")" else q in
       if with_alias then
         let a := if truthy_ostr (s_alias s) then ostr (s_alias s) else table_name_field_text in
-        ROk (fmt_alias q (Some a) (match kw_quote k with Some x => x | None => None end)
-                       (kw_alias_quote k) (kw_as_keyword k))
+        ROk (fmt_alias q (Some a) (kw_str k "quote_char") (source_alias_quote k) (kw_true k "as_keyword"))
       else ROk q
   | e => e
   end.
 
 (* ================= the specification, written independently ================= *)
-(* the effective context: the caller's keyword arguments win; dialect and quote_char fall back to the base's *)
-Definition eff_kwargs (s : setop) (k : kwargs) : kwargs :=
-  {| kw_dialect := Some (match kw_dialect k with Some d => d | None => o_dialect (s_base s) end);
-     kw_quote := Some (match kw_quote k with Some q => q | None => o_quote (s_base s) end);
-     kw_alias_quote := kw_alias_quote k; kw_as_keyword := kw_as_keyword k; kw_other := kw_other k |}.
+(* the effective context: the caller's keyword arguments win, missing conventions come from the base *)
+Definition eff_kwargs (s : setop) (k : kwargs) : kwargs := apply_defaults (s_base s) k.
 
 Definition wrap_if (b : bool) (t : string) : string := if b then "(" ++ t ++ ")" else t.
 Definition own_text (k : kwargs) (o : operand) : string := o_text o k false.
 Definition operands (s : setop) : list operand := s_base s :: map snd (s_ops s).
 Definition keywords (s : setop) : list string := map (fun x => kind_text (fst x)) (s_ops s).
 
-(* segment i = the i-th operand's own text, in parentheses iff the BASE's flag asks *)
+(* an appended operand's segment: its own text, in parentheses iff the BASE's flag asks; where operands are not
+   parenthesised a nested chain keeps its grouping as a derived table *)
+Definition segment (wrap : bool) (k : kwargs) (o : operand) : string :=
+  if wrap then "(" ++ own_text k o ++ ")"
+  else if o_chain o then "SELECT * FROM (" ++ own_text k o ++ ")" else own_text k o.
 Definition spec_segments (s : setop) (k : kwargs) : list string :=
-  map (fun o => wrap_if (o_wrap (s_base s)) (own_text (eff_kwargs s k) o)) (operands s).
+  wrap_if (o_wrap (s_base s)) (own_text (eff_kwargs s k) (s_base s))
+  :: map (fun x => segment (o_wrap (s_base s)) (eff_kwargs s k) (snd x)) (s_ops s).
 
 (* seg0 kw1 seg1 kw2 seg2 ... as one flat word list *)
 Fixpoint weave (segs kws : list string) : list string :=
@@ -256,8 +311,7 @@ Definition opt_piece (b : bool) (t : string) : string := if b then t else "".
 Definition spec_tail (s : setop) (k : kwargs) : string :=
   sconcat [ opt_piece (negb (is_nil (s_orderbys s)))
                       (" ORDER BY " ++ join "," (map (ob_clause (s_base s) (eff_kwargs s k)) (s_orderbys s)));
-            match s_limit s with Some n => " LIMIT " ++ Z_to_string n | None => "" end;
-            match s_offset s with Some n => opt_piece (negb (Z.eqb n 0)) (" OFFSET " ++ Z_to_string n) | None => "" end ].
+            page_sql (o_page (s_base s)) (s_limit s) (s_offset s) ].
 Definition spec_text (s : setop) (k : kwargs) : string := spec_body s k ++ spec_tail s k.
 
 (* the chain without its trailing clauses *)
@@ -283,7 +337,8 @@ Definition frag (s : setop) (k : kwargs) : bool :=
    get_sql under the kwargs it is handed (which then already carry dialect and quote_char).  "" stands for the case
    where the inner chain itself raises; the theorems exclude it. *)
 Definition as_operand (c : setop) : operand :=
-  {| o_sel := o_sel (s_base c); o_builder := o_builder (s_base c); o_wrap := false; o_dialect := None; o_quote := None;
+  {| o_sel := o_sel (s_base c); o_builder := o_builder (s_base c); o_chain := true; o_wrap := false;
+     o_defaults := []; o_forced := []; o_page := PStd;
      o_text := fun k sub => match render_setop c k false sub with ROk t => t | _ => "" end |}.
 
 (* operand list of a program, in call order *)
